@@ -146,6 +146,13 @@ def check(run, prog, tier):
             if not (rp.outcome[0] == "raise" and eng.exc.is_sub(rp.outcome[1], "header.ParseError")):
                 problems.setdefault(f"{read.qual}:reject-error-type[{why}]",
                                     f"stream decoder rejects a bad header with {rp.outcome[1] if len(rp.outcome) > 1 else rp.outcome[0]}, not with the library's ParseError")
+            # ... and at the same position: on seeing the header, before any payload byte is awaited (a reader that
+            # first waits for the payload blocks on a stream whose payload never comes, or reports EOF instead)
+            nrx = [e for e in rp.events if e.kind == "call" and e.attrname == "readexactly" and e.recv == rdr]
+            if len(nrx) != 1:
+                problems.setdefault(f"{read.qual}:reject-position[{why}]",
+                                    f"length field {size}, version {pv}, type {mtv:#x}, return code {rcv:#x}: the stream decoder rejects this header only "
+                                    f"after {len(nrx)} readexactly call(s) - it must be rejected once the {H} header bytes are read, as the datagram decoder does")
             continue
         pm = pp.retval()[1][0]
         rm = rp.retval()
@@ -171,7 +178,7 @@ def check(run, prog, tier):
             problems.setdefault(f"{parse.qual}:payload-length", f"datagram decoder payload is {plen} bytes for length field {size}")
     run.abstract_cases += cases
     for k, m in problems.items():
-        run.ob("S1" if ":decision" in k or ":field" in k or "reject-error" in k else "S2", k, False, loc(read), m)
+        run.ob("S1" if ":decision" in k or ":field" in k or "reject-" in k else "S2", k, False, loc(read), m)
     if not problems:
         run.ob("S1", f"{read.qual}:agrees-with-parse", True, loc(read),
                f"{cases} cells of (length, version, type, return code): same decision, same fields, same error class")
